@@ -9,7 +9,10 @@ import (
 	"github.com/vektah/gqlparser/v2/gqlerror"
 	"github.com/vektah/gqlparser/v2/validator"
 
+	"github.com/vektah/gqlparser/v2/parser"
+
 	"verif/harness/internal/core"
+	"verif/harness/internal/dgen"
 	"verif/harness/internal/model"
 	"verif/harness/internal/tsys"
 )
@@ -17,6 +20,21 @@ import (
 // c04Typed: multi-source schema loads. Valid schemas: every position reachable from the loaded
 // *ast.Schema; faulted schemas: the location of the load error must be a token start of the file it names.
 func c04Typed(x *core.Ctx, r *core.Rand, rn *model.Renderer, i int) {
+	if i%8 == 3 {
+		// a faulted document, rendered with hostile trivia, validated against a schema from another named source
+		items := tsys.Schema(r, &tsys.GenOpts{Descs: true, Small: true})
+		mg := tsys.Merge(items)
+		g := dgen.New(r, mg, &dgen.Opts{MaxDepth: 2, MaxOps: 2, Introspect: true})
+		doc := g.Doc()
+		if len(doc.Defs) > 0 {
+			for k := 0; k < 1+r.Intn(3); k++ {
+				dgen.Faults[r.Intn(len(dgen.Faults))].Do(dgen.NewFCtx(r, mg, doc))
+			}
+			c := core.NewCase("validate", "schema", rn.RenderSDoc(&model.SDoc{Items: items}), "doc", rn.RenderDoc(doc))
+			x.Do(c, func() { c04CheckTyped(x, c) })
+			return
+		}
+	}
 	items := tsys.Schema(r, &tsys.GenOpts{Descs: true, Hostile: i%8 == 3, Extensions: true, Small: i%3 == 0})
 	if i%8 != 7 {
 		all := append(append([]tsys.Fault{}, tsys.Faults...), tsys.ExtraFaults...)
@@ -45,6 +63,35 @@ func c04Typed(x *core.Ctx, r *core.Rand, rn *model.Renderer, i int) {
 }
 
 func c04CheckTyped(x *core.Ctx, c *core.Case) {
+	if c.Kind == "validate" {
+		ssrc := &ast.Source{Name: "schema-src.graphql", Input: c.Get("schema")}
+		dsrc := &ast.Source{Name: "request-src.graphql", Input: c.Get("doc")}
+		pc := newPosChecker(x, validator.Prelude, ssrc, dsrc)
+		if !pc.sources[ssrc].lexOK || !pc.sources[dsrc].lexOK {
+			x.Count("skipped:reference-cannot-lex")
+			return
+		}
+		schema, err := gqlparser.LoadSchema(ssrc)
+		if err != nil {
+			return
+		}
+		doc, perr := parser.ParseQuery(dsrc)
+		if perr != nil {
+			return
+		}
+		errs := validator.Validate(schema, doc)
+		x.Count("validated_documents")
+		for _, e := range errs {
+			if len(e.Locations) == 0 {
+				continue
+			}
+			x.Count("validation_error_locations")
+			pc.checkErrorLocation("validate:"+e.Rule, e, dsrc)
+		}
+		// the validated tree now also points into the schema's sources: every position must still be truthful
+		pc.walkPositions(doc, false)
+		return
+	}
 	if c.Kind != "load" {
 		return
 	}
